@@ -79,6 +79,10 @@ func suiteNode(c *Ctx) {
 	c.Class("scenario/nv-foreign-embedded-proposal")
 	scenarioNewViewWrongBlock(c)
 	c.Class("scenario/nv-wrong-block")
+	scenarioProofMutationSweep(c)
+	c.Class("scenario/proof-mutation-sweep")
+	scenarioNewViewMutationSweep(c)
+	c.Class("scenario/newview-mutation-sweep")
 	scenarioCommitWhileSyncPending(c)
 	c.Class("scenario/commit-while-sync-pending")
 	scenarioTwoBlockProof(c)
@@ -499,6 +503,188 @@ func scenarioOutsidersFirst(c *Ctx, scheme int) *Net {
 		net.pool = net.pool[1:]
 		net.deliverFlight(f)
 	}
+	return net
+}
+
+// drainExcept delivers everything in flight (FIFO) except messages of the given Go type
+func (net *Net) drainExcept(skipType string) {
+	for guard := 0; guard < 3000 && len(net.pool) > 0; guard++ {
+		f := net.pool[0]
+		net.pool = net.pool[1:]
+		if skipType != "" && fmt.Sprintf("%T", interfaces.ToConsensusMessage(f.Raw)) == skipType {
+			continue
+		}
+		net.deliverFlight(f)
+	}
+}
+
+// proof-mutation-sweep: every rejection branch of the prepared-proof / vote validation, once per run.
+// The Byzantine leader of view 0 proposes, the correct members become prepared, COMMITs are lost, everybody
+// times out; the correct leader of view 1 then receives the Byzantine member's VIEW_CHANGE carrying the genuine
+// proof of view 0 with exactly one aspect changed (each signature the adversary owns is re-made over the changed
+// bytes, so that the check in question is the one that fires), and finally the unchanged one.
+func scenarioProofMutationSweep(c *Ctx) *Net {
+	net := NewNet(c, NetOpts{N: 4, Weights: []uint64{1, 1, 1, 1}, ByzIdx: []int{0}, Inst: 100}, "proof-mutation-sweep n=4 byz=[0]")
+	net.start()
+	a := net.adv
+	inst, h := uint64(100), uint64(1)
+	byz := memberId(0)
+	blk := a.newBlock(h, false)
+	a.toAll(a.mkPP(byz, inst, h, 0, blk), "byz-pp")
+	net.drainExcept("*interfaces.CommitMessage")
+	for _, n := range net.order {
+		net.timeout(n, false)
+	}
+	// only one correct member's vote reaches the leader of view 1 for now: it is not elected yet
+	var held []*Flight
+	gotOne := false
+	for _, f := range net.pool {
+		if !gotOne && string(f.From) == string(memberId(2)) {
+			gotOne = true
+			net.deliverFlight(f)
+		} else {
+			held = append(held, f)
+		}
+	}
+	net.pool = nil
+	defer func() {
+		net.pool = append(held, net.pool...)
+		net.drainExcept("")
+	}()
+	ldr, ok := net.nodes[string(memberId(1))]
+	if p0, _ := a.genuineProof(h, 0); !ok || p0 == nil || len(p0.PrepareSenders) < 2 {
+		c.Class("scenario/proof-mutation-sweep/not-reached")
+		return net
+	}
+	resignPP := func(p *protocol.PreparedProofBuilder, key []byte) {
+		p.PreprepareSender = a.senderB(key, uint64(p.PreprepareBlockRef.BlockHeight), p.PreprepareBlockRef.Build().Raw())
+	}
+	type mut struct {
+		name string
+		f    func(p *protocol.PreparedProofBuilder)
+	}
+	muts := []mut{
+		{"pp-height", func(p *protocol.PreparedProofBuilder) { p.PreprepareBlockRef.BlockHeight = 2; resignPP(p, byz) }},
+		{"pp-view-not-below-target", func(p *protocol.PreparedProofBuilder) {
+			p.PreprepareBlockRef.View, p.PrepareBlockRef.View = 1, 1
+			resignPP(p, byz)
+		}},
+		{"pp-sender-not-leader", func(p *protocol.PreparedProofBuilder) { resignPP(p, a.outsiders[0]) }},
+		{"pp-bad-signature", func(p *protocol.PreparedProofBuilder) {
+			sig := append([]byte{}, p.PreprepareSender.Signature...)
+			sig[0] ^= 1
+			p.PreprepareSender = &protocol.SenderSignatureBuilder{MemberId: p.PreprepareSender.MemberId, Signature: sig}
+		}},
+		{"p-height", func(p *protocol.PreparedProofBuilder) { p.PrepareBlockRef.BlockHeight = 2 }},
+		{"p-view", func(p *protocol.PreparedProofBuilder) { p.PrepareBlockRef.View = 5 }},
+		{"p-hash", func(p *protocol.PreparedProofBuilder) { p.PrepareBlockRef.BlockHash = []byte{1, 2, 3} }},
+		{"leader-among-preparers", func(p *protocol.PreparedProofBuilder) {
+			p.PrepareSenders = append(p.PrepareSenders, a.senderB(byz, h, p.PrepareBlockRef.Build().Raw()))
+		}},
+		{"duplicate-preparer", func(p *protocol.PreparedProofBuilder) { p.PrepareSenders = append(p.PrepareSenders, p.PrepareSenders[0]) }},
+		{"outsider-preparer", func(p *protocol.PreparedProofBuilder) {
+			p.PrepareSenders = append(p.PrepareSenders, a.senderB(a.outsiders[0], h, p.PrepareBlockRef.Build().Raw()))
+		}},
+		{"bad-preparer-signature", func(p *protocol.PreparedProofBuilder) {
+			s0 := p.PrepareSenders[0]
+			sig := append([]byte{}, s0.Signature...)
+			sig[len(sig)-1] ^= 1
+			p.PrepareSenders[0] = &protocol.SenderSignatureBuilder{MemberId: s0.MemberId, Signature: sig}
+		}},
+		{"below-quorum", func(p *protocol.PreparedProofBuilder) { p.PrepareSenders = p.PrepareSenders[:1] }},
+		{"no-preparers", func(p *protocol.PreparedProofBuilder) { p.PrepareSenders = nil }},
+		{"proof-other-instance", func(p *protocol.PreparedProofBuilder) {
+			p.PreprepareBlockRef.InstanceId, p.PrepareBlockRef.InstanceId = 7, 7
+			resignPP(p, byz)
+		}},
+		{"proof-ref-types", func(p *protocol.PreparedProofBuilder) {
+			p.PreprepareBlockRef.MessageType = protocol.LEAN_HELIX_PREPARE
+			resignPP(p, byz)
+		}},
+		{"proof-prepare-ref-type", func(p *protocol.PreparedProofBuilder) { p.PrepareBlockRef.MessageType = protocol.LEAN_HELIX_COMMIT }},
+	}
+	for _, m := range muts {
+		p, pb := a.genuineProof(h, 0)
+		m.f(p)
+		a.inject(ldr, a.mkVC(a.vcContent(byz, protocol.LEAN_HELIX_VIEW_CHANGE, inst, h, 1, p), pb), "sweep-vc-"+m.name)
+	}
+	// header aspects
+	{
+		p, pb := a.genuineProof(h, 0)
+		a.inject(ldr, a.mkVC(a.vcContent(byz, protocol.LEAN_HELIX_NEW_VIEW, inst, h, 1, p), pb), "sweep-vc-header-type")
+		p, pb = a.genuineProof(h, 0)
+		a.inject(ldr, a.mkVC(a.vcContent(a.outsiders[0], protocol.LEAN_HELIX_VIEW_CHANGE, inst, h, 1, p), pb), "sweep-vc-outsider")
+		p, _ = a.genuineProof(h, 0)
+		a.inject(ldr, a.mkVC(a.vcContent(byz, protocol.LEAN_HELIX_VIEW_CHANGE, inst, h, 1, p), nil), "sweep-vc-no-block")
+		p, _ = a.genuineProof(h, 0)
+		a.inject(ldr, a.mkVC(a.vcContent(byz, protocol.LEAN_HELIX_VIEW_CHANGE, inst, h, 1, p), a.newBlock(h, false)), "sweep-vc-other-block")
+		// and the unchanged vote
+		p, pb = a.genuineProof(h, 0)
+		a.inject(ldr, a.mkVC(a.vcContent(byz, protocol.LEAN_HELIX_VIEW_CHANGE, inst, h, 1, p), pb), "sweep-vc-genuine")
+	}
+	return net
+}
+
+// newview-mutation-sweep: every rejection branch of the NEW_VIEW validation, once per run.  The correct leader of
+// view 0 proposes, the correct members become prepared, COMMITs are lost, everybody times out towards the
+// Byzantine leader of view 1, who then sends NEW_VIEWs that are by the book except for one aspect, and finally
+// the one that is by the book.
+func scenarioNewViewMutationSweep(c *Ctx) *Net {
+	net := NewNet(c, NetOpts{N: 4, Weights: []uint64{1, 1, 1, 1}, ByzIdx: []int{1}, Inst: 100}, "newview-mutation-sweep n=4 byz=[1]")
+	net.start()
+	a := net.adv
+	inst, h, nv := uint64(100), uint64(1), uint64(1)
+	byz := memberId(1)
+	net.drainExcept("*interfaces.CommitMessage")
+	for _, n := range net.order {
+		net.timeout(n, false)
+	}
+	net.pool = nil // the votes went to the Byzantine leader (it has seen them)
+	hash, blk, _ := a.highestSeenLock(h, nv)
+	if hash == nil || blk == nil || len(a.genuineVotes(h, nv, false, nil)) < 3 {
+		c.Class("scenario/newview-mutation-sweep/not-reached")
+		return net
+	}
+	goodPP := func() *protocol.PreprepareContentBuilder { return a.ppContent(byz, protocol.LEAN_HELIX_PREPREPARE, inst, h, nv, hash) }
+	genuine := func() []*protocol.ViewChangeMessageContentBuilder { return a.genuineVotes(h, nv, false, nil) }
+	proof := func() *protocol.PreparedProofBuilder { p, _ := a.genuineProof(h, 0); return p }
+	send := func(name string, votes []*protocol.ViewChangeMessageContentBuilder, pp *protocol.PreprepareContentBuilder, b *FakeBlock) {
+		a.toAll(a.mkNV(byz, protocol.LEAN_HELIX_NEW_VIEW, inst, h, nv, votes, pp, b), "sweep-nv-"+name)
+	}
+	send("vote-height", append(genuine(), a.vcContent(byz, protocol.LEAN_HELIX_VIEW_CHANGE, inst, 2, nv, nil)), goodPP(), blk)
+	send("vote-view", append(genuine(), a.vcContent(byz, protocol.LEAN_HELIX_VIEW_CHANGE, inst, h, nv+1, nil)), goodPP(), blk)
+	send("vote-duplicate", append(genuine(), genuine()[0]), goodPP(), blk)
+	send("vote-type", append(genuine(), a.vcContent(byz, protocol.LEAN_HELIX_NEW_VIEW, inst, h, nv, nil)), goodPP(), blk)
+	send("vote-instance", append(genuine(), a.vcContent(byz, protocol.LEAN_HELIX_VIEW_CHANGE, inst+1, h, nv, nil)), goodPP(), blk)
+	send("vote-outsider", append(genuine(), a.vcContent(a.outsiders[0], protocol.LEAN_HELIX_VIEW_CHANGE, inst, h, nv, nil)), goodPP(), blk)
+	{
+		p := proof()
+		if p != nil {
+			p.PreprepareBlockRef.InstanceId, p.PrepareBlockRef.InstanceId = 7, 7
+			send("vote-proof-instance", append(genuine(), a.vcContent(byz, protocol.LEAN_HELIX_VIEW_CHANGE, inst, h, nv, p)), goodPP(), blk)
+		}
+		p = proof()
+		if p != nil {
+			p.PrepareBlockRef.MessageType = protocol.LEAN_HELIX_COMMIT
+			send("vote-proof-types", append(genuine(), a.vcContent(byz, protocol.LEAN_HELIX_VIEW_CHANGE, inst, h, nv, p)), goodPP(), blk)
+		}
+		p = proof()
+		if p != nil && len(p.PrepareSenders) > 0 {
+			p.PrepareSenders = append(p.PrepareSenders, p.PrepareSenders[0])
+			send("vote-proof-duplicate-preparer", append(genuine(), a.vcContent(byz, protocol.LEAN_HELIX_VIEW_CHANGE, inst, h, nv, p)), goodPP(), blk)
+		}
+	}
+	send("below-quorum", genuine()[:2], goodPP(), blk)
+	send("pp-view", genuine(), a.ppContent(byz, protocol.LEAN_HELIX_PREPREPARE, inst, h, nv+1, hash), blk)
+	send("pp-height", genuine(), a.ppContent(byz, protocol.LEAN_HELIX_PREPREPARE, inst, h+1, nv, hash), blk)
+	send("pp-instance", genuine(), a.ppContent(byz, protocol.LEAN_HELIX_PREPREPARE, inst+1, h, nv, hash), blk)
+	send("pp-type", genuine(), a.ppContent(byz, protocol.LEAN_HELIX_PREPARE, inst, h, nv, hash), blk)
+	send("pp-by-outsider", genuine(), a.ppContent(a.outsiders[0], protocol.LEAN_HELIX_PREPREPARE, inst, h, nv, hash), blk)
+	send("no-block", genuine(), goodPP(), nil)
+	a.toAll(a.mkNV(byz, protocol.LEAN_HELIX_VIEW_CHANGE, inst, h, nv, genuine(), goodPP(), blk), "sweep-nv-header-type")
+	a.toAll(a.mkNV(a.outsiders[0], protocol.LEAN_HELIX_NEW_VIEW, inst, h, nv, genuine(), goodPP(), blk), "sweep-nv-sender-not-leader")
+	send("genuine", genuine(), goodPP(), blk)
+	net.drainExcept("")
 	return net
 }
 
